@@ -286,6 +286,9 @@ func c12RunTCP(run *vk.Run, cs c12TCPCase, budget *c12Budget) {
 	if errCase {
 		run.Count("error_cases", 1)
 	}
+	if k := a.deadlineCalls.Load() + b.deadlineCalls.Load(); k > 0 {
+		run.Count("deadline_calls_on_endpoints", k)
+	}
 	run.Eval(1)
 	if cs.LenAB+cs.LenBA > 0 {
 		run.Distinct(fmt.Sprintf("%s|%s|%s|%s|%s|%s", cs.Order, cs.KindA, cs.KindB, c12ChunkClass(cs.ChunkMax), c12SizeBucket(cs.LenAB), c12SizeBucket(cs.LenBA)))
